@@ -1,4 +1,4 @@
-import IoraModel.Lemmas.TpLock
+import IoraModel.Lemmas.TpNoRestart
 /-!
 # C09 — effect of every transition on the queue, the worker map `_threads`, and the flags `_shutdown` / "quiesced"
 -/
@@ -24,7 +24,7 @@ theorem pollHead_sameQ (sh : Shared) (r : MRegs) (k : Poll) : SameQ sh (pollHead
   unfold pollHead; split
   · exact ⟨rfl, rfl, rfl, rfl⟩
   · exact pollExit_sameQ sh r k false
-theorem stepMYield_sameQ (sh : Shared) (r : MRegs) : SameQ sh (stepMYield sh r).1 := by
+theorem stepMYield_sameQ (cfg : Cfg) (sh : Shared) (r : MRegs) : SameQ sh (stepMYield cfg sh r).1 := by
   unfold stepMYield drainEnter; (repeat' split) <;> exact ⟨rfl, rfl, rfl, rfl⟩
 theorem drainReturn_sameQ (sh : Shared) (r : MRegs) (b : Bool) : SameQ sh (drainReturn sh r b).1 := by
   unfold drainReturn; (repeat' split) <;> exact ⟨rfl, rfl, rfl, rfl⟩
@@ -32,6 +32,10 @@ theorem shutdownReturn_sameQ (sh : Shared) (r : MRegs) : SameQ sh (shutdownRetur
   unfold shutdownReturn; (repeat' split) <;> exact ⟨rfl, rfl, rfl, rfl⟩
 theorem dtorReturn_sameQ (sh : Shared) (r : MRegs) : SameQ sh (dtorReturn sh r).1 := by
   unfold dtorReturn; exact ⟨rfl, rfl, rfl, rfl⟩
+theorem dtorEarly_sameQ (sh : Shared) (r : MRegs) : SameQ sh (dtorEarly sh r).1 := by
+  unfold dtorEarly; split
+  · exact dtorReturn_sameQ sh r
+  · exact ⟨rfl, rfl, rfl, rfl⟩
 
 /-- the enqueue call: nothing, push (only while not shut down; the caller then either is about to create a worker or
 saw `_threads.size() >= _maxSize`), or creation + registration of a worker -/
@@ -41,8 +45,8 @@ inductive CallEff (cfg : Cfg) (sh : Shared) (n : Nat) (c : CallSt) (sh' : Shared
   | push (rest : List Act) (cid : Nat) (hc : c = .inCall rest cid .lock) (hs : sh.shutdown = false)
       (ht : sh'.tasks = sh.tasks ++ [cid]) (h2 : sh'.threads = sh.threads) (h3 : sh'.shutdown = sh.shutdown)
       (h4 : sh'.quiesced = sh.quiesced) (hp : post = .none)
-      (ho : (out = .more (.inCall rest cid .create) ∧ sh.threads.length < cfg.maxSize) ∨
-            (out = .more (.inCall rest cid .unlock) ∧ cfg.maxSize ≤ sh.threads.length))
+      (ho : (out = .more (.inCall rest cid .create) ∧ sh.threads.length < cfg.effMax) ∨
+            (out = .more (.inCall rest cid .unlock) ∧ cfg.effMax ≤ sh.threads.length))
   | create (rest : List Act) (cid : Nat) (hc : c = .inCall rest cid .create) (h1 : sh'.tasks = sh.tasks)
       (ht : sh'.threads = sh.threads ++ [n]) (h3 : sh'.shutdown = sh.shutdown) (h4 : sh'.quiesced = sh.quiesced)
       (hp : post = .spawn newWorker) (ho : out = .more (.inCall rest cid .unlock))
@@ -145,7 +149,7 @@ theorem pollHead_calm (sh : Shared) (r : MRegs) (k : Poll) : calmPc (pollHead sh
   unfold pollHead; split
   · simp [calmPc]
   · exact pollExit_calm sh r k false
-theorem stepMYield_calm (sh : Shared) (r : MRegs) : calmPc (stepMYield sh r).2.1 = true := by
+theorem stepMYield_calm (cfg : Cfg) (sh : Shared) (r : MRegs) : calmPc (stepMYield cfg sh r).2.1 = true := by
   unfold stepMYield drainEnter; (repeat' split) <;> simp [calmPc]
 theorem drainReturn_calm (sh : Shared) (r : MRegs) (b : Bool) : calmPc (drainReturn sh r b).2.1 = true := by
   unfold drainReturn; (repeat' split) <;> simp [calmPc]
@@ -153,18 +157,22 @@ theorem shutdownReturn_calm (sh : Shared) (r : MRegs) : calmPc (shutdownReturn s
   unfold shutdownReturn; (repeat' split) <;> simp [calmPc]
 theorem dtorReturn_calm (sh : Shared) (r : MRegs) : calmPc (dtorReturn sh r).2.1 = true := by
   unfold dtorReturn; simp [calmPc]
+theorem dtorEarly_calm (sh : Shared) (r : MRegs) : calmPc (dtorEarly sh r).2.1 = true := by
+  unfold dtorEarly; split
+  · exact dtorReturn_calm sh r
+  · simp [calmPc]
 
 /-- what one step of a runnable thread does, as far as the queue / worker-map invariants are concerned -/
 inductive StepEff (cfg : Cfg) (sh : Shared) (n t : Nat) (th : Thread) (alt : Nat) (sh' : Shared) (th' : Thread) (post : Post) : Prop
   /-- nothing relevant happens -/
-  | quiet (h : SameQ sh sh') (hp : ∀ nt, post = .spawn nt → ∃ sc, nt = .sub (.start sc))
+  | quiet (h : SameQ sh sh') (hp : ∀ nt, post = .spawn nt → isWorker nt = false ∧ isMain th = true)
       (hc : atCreate th = false) (hc' : atCreate th' = false) (hw : isWorker th' = isWorker th)
       (htail : tailW th' = tailW th) (hgone : goneW th' = goneW th) (htgt : targetOf th' = targetOf th)
       (hdone : th' = .worker .done → th = .worker .done)
   /-- `_tasks.emplace(f)` -/
   | push (cid : Nat) (hs : sh.shutdown = false) (ht : sh'.tasks = sh.tasks ++ [cid]) (h2 : sh'.threads = sh.threads)
       (h3 : sh'.shutdown = sh.shutdown) (h4 : sh'.quiesced = sh.quiesced) (hp : post = .none)
-      (hc : atCreate th = false) (hc' : (atCreate th' = true ∧ sh.threads.length < cfg.maxSize) ∨ (atCreate th' = false ∧ cfg.maxSize ≤ sh.threads.length))
+      (hc : atCreate th = false) (hc' : (atCreate th' = true ∧ sh.threads.length < cfg.effMax) ∨ (atCreate th' = false ∧ cfg.effMax ≤ sh.threads.length))
       (hw : isWorker th' = isWorker th) (htail : tailW th' = tailW th) (hgone : goneW th' = goneW th)
       (htgt : targetOf th' = targetOf th) (hdone : th' ≠ .worker .done) (hl : locksM th = true)
   /-- `std::thread t(...)` + `_threads.emplace` (inside the critical section) -/
@@ -200,6 +208,8 @@ inductive StepEff (cfg : Cfg) (sh : Shared) (n t : Nat) (th : Thread) (alt : Nat
   /-- `_shutdown = true` under the mutex -/
   | setShut (r : MRegs) (hth : th = .main .sFlagL r) (hw : th' = .main .sFlagU r) (hs : sh.shutdown = false) (h1 : sh'.tasks = sh.tasks)
       (ht : sh'.threads = sh.threads) (h3 : sh'.shutdown = true) (h4 : sh'.quiesced = sh.quiesced) (hp : post = .none)
+  /-- inside `reset()` / `start()` (only with `Cfg.allowRestart`) -/
+  | restart (hth : restartTh th = true)
 
 theorem post_none_sub (nt : Thread) (h : Post.none = Post.spawn nt) : ∃ sc, nt = .sub (.start sc) := by cases h
 theorem post_wakeOne_sub (nt : Thread) (h : Post.wakeOne = Post.spawn nt) : ∃ sc, nt = .sub (.start sc) := by cases h
@@ -329,6 +339,10 @@ theorem transW_eff (cfg : Cfg) (sh : Shared) (n t : Nat) (w : WSt) (alt : Nat) :
         (by rw [hb.2.1]; simp [tailW]) (by rw [hb.2.2.1]; simp [goneW]) rfl (fun e => absurd e hb.2.2.2)
     · exact .quiet ⟨rfl, rfl, rfl, rfl⟩ (fun nt e => by cases e) (by simp [atCreate]) (by simp [atCreate]) rfl
         (by simp [tailW]) (by simp [goneW]) (by simp [targetOf]) (by intro e; cases e)
+  | cfgUnlock id again =>
+    simp only [transW, taskDone]
+    split <;> exact .quiet ⟨rfl, rfl, rfl, rfl⟩ (fun nt e => by cases e) (by simp [atCreate]) (by simp [atCreate]) rfl
+        (by simp [tailW]) (by simp [goneW]) (by simp [targetOf]) (by intro e; cases e)
   | _ =>
     simp only [transW, beginTask, taskDone]
     exact .quiet ⟨rfl, rfl, rfl, rfl⟩ (fun nt e => by cases e) (by simp [atCreate]) (by simp [atCreate]) rfl
@@ -362,10 +376,10 @@ theorem transS_eff (cfg : Cfg) (sh : Shared) (n t : Nat) (x : SSt) (alt : Nat) :
 
 /-- a controller step that leaves the queue etc. alone and ends at a calm pc -/
 theorem quiet_main (cfg : Cfg) (sh sh' : Shared) (n t alt : Nat) (pc pc' : MPc) (r r' : MRegs) (post : Post)
-    (h : SameQ sh sh') (hp : ∀ nt, post = .spawn nt → ∃ sc, nt = .sub (.start sc))
+    (h : SameQ sh sh') (hp : ∀ nt, post = .spawn nt → isWorker nt = false)
     (hc : calmPc pc = true) (hc' : calmPc pc' = true) :
     StepEff cfg sh n t (.main pc r) alt sh' (.main pc' r') post :=
-  .quiet h hp (calm_atCreate pc r hc).1 (calm_atCreate pc' r' hc').1 rfl rfl rfl
+  .quiet h (fun nt e => ⟨hp nt e, rfl⟩) (calm_atCreate pc r hc).1 (calm_atCreate pc' r' hc').1 rfl rfl rfl
     (by rw [(calm_atCreate pc r hc).2, (calm_atCreate pc' r' hc').2]) (by intro e; cases e)
 
 theorem transM_eff (cfg : Cfg) (sh : Shared) (n t : Nat) (pc : MPc) (r : MRegs) (alt : Nat) :
@@ -411,10 +425,10 @@ theorem transM_eff (cfg : Cfg) (sh : Shared) (n t : Nat) (pc : MPc) (r : MRegs) 
     · next hs => exact .setShut r rfl rfl (by simpa using hs) rfl rfl rfl rfl rfl
   | mSpawn sc =>
     simp only [transM]
-    exact quiet_main cfg _ _ n t alt _ _ _ _ _ ⟨rfl, rfl, rfl, rfl⟩ (fun nt e => by cases e; exact ⟨sc, rfl⟩) (by simp [calmPc]) (by simp [calmPc])
+    exact quiet_main cfg _ _ n t alt _ _ _ _ _ ⟨rfl, rfl, rfl, rfl⟩ (fun nt e => by cases e; rfl) (by simp [calmPc]) (by simp [calmPc])
   | mYield =>
     simp only [transM]
-    exact quiet_main cfg _ _ n t alt _ _ _ _ _ (stepMYield_sameQ sh r) (fun nt e => by cases e) (by simp [calmPc]) (stepMYield_calm sh r)
+    exact quiet_main cfg _ _ n t alt _ _ _ _ _ (stepMYield_sameQ cfg sh r) (fun nt e => by cases e) (by simp [calmPc]) (stepMYield_calm cfg sh r)
   | dInfU =>
     simp only [transM]
     exact quiet_main cfg _ _ n t alt _ _ _ _ _
@@ -440,11 +454,28 @@ theorem transM_eff (cfg : Cfg) (sh : Shared) (n t : Nat) (pc : MPc) (r : MRegs) 
     simp only [transM]
     split
     · exact quiet_main cfg _ _ n t alt _ _ _ _ _
-        (SameQ.trans (⟨rfl, rfl, rfl, rfl⟩ : SameQ sh { sh with owner := none }) (dtorReturn_sameQ { sh with owner := none } r))
-        (fun nt e => by cases e) (by simp [calmPc]) (dtorReturn_calm { sh with owner := none } r)
-    · exact quiet_main cfg _ _ n t alt _ _ _ _ _
-        (SameQ.trans (⟨rfl, rfl, rfl, rfl⟩ : SameQ sh { sh with owner := none }) (shutdownReturn_sameQ { sh with owner := none } r))
-        (fun nt e => by cases e) (by simp [calmPc]) (shutdownReturn_calm { sh with owner := none } r)
+        (SameQ.trans (⟨rfl, rfl, rfl, rfl⟩ : SameQ sh { sh with owner := none }) (dtorEarly_sameQ { sh with owner := none } r))
+        (fun nt e => by cases e) (by simp [calmPc]) (dtorEarly_calm { sh with owner := none } r)
+    · split
+      · exact quiet_main cfg _ _ n t alt _ _ _ _ _
+          (SameQ.trans (⟨rfl, rfl, rfl, rfl⟩ : SameQ sh { sh with owner := none }) (shutdownReturn_sameQ { sh with owner := none } r))
+          (fun nt e => by cases e) (by simp [calmPc]) (shutdownReturn_calm { sh with owner := none } r)
+      · exact quiet_main cfg _ _ n t alt _ _ _ _ _ ⟨rfl, rfl, rfl, rfl⟩ (fun nt e => by cases e) (by simp [calmPc]) (by simp [calmPc])
+  | sDoneZ =>
+    simp only [transM]
+    split
+    · exact quiet_main cfg _ _ n t alt _ _ _ _ _ (shutdownReturn_sameQ sh r) (fun nt e => by cases e) (by simp [calmPc]) (shutdownReturn_calm sh r)
+    · exact quiet_main cfg _ _ n t alt _ _ _ _ _ ⟨rfl, rfl, rfl, rfl⟩ (fun nt e => by cases e) (by simp [calmPc]) (by simp [calmPc])
+  | mSpawnCtl ix =>
+    simp only [transM]
+    exact quiet_main cfg _ _ n t alt _ _ _ _ _ ⟨rfl, rfl, rfl, rfl⟩ (fun nt e => by cases e; rfl) (by simp [calmPc]) (by simp [calmPc])
+  | rsL => exact .restart rfl
+  | rsU => exact .restart rfl
+  | stL => exact .restart rfl
+  | stU => exact .restart rfl
+  | kL => exact .restart rfl
+  | kC => exact .restart rfl
+  | kU => exact .restart rfl
   | sBcast =>
     simp only [transM]
     split
